@@ -31,9 +31,10 @@ FN_SPELL = {
 class Style:
     """Layout knobs; plain=True gives canonical upper-case, single-blank text."""
 
-    def __init__(self, rng: random.Random | None, plain=False):
+    def __init__(self, rng: random.Random | None, plain=False, faithful=False):
         self.rng = rng or random.Random(0)
         self.plain = plain or rng is None
+        self.faithful = faithful  # never drop parentheses that only associativity of + and * makes redundant
 
     def chance(self, p):
         return (not self.plain) and self.rng.random() < p
@@ -130,7 +131,7 @@ def render_expr(e, st: Style, dot_follows=False):
     if k in ("add", "sub"):
         l = _wrap(render_expr(e["a"], st), L_ADD, st)
         rneed = L_MUL
-        if k == "add" and e["b"]["k"] in ("add", "sub") and st.chance(0.3):
+        if k == "add" and e["b"]["k"] in ("add", "sub") and not st.faithful and st.chance(0.3):
             rneed = L_ADD  # A+(B-C) = A+B-C over the rationals
         rt = render_expr(e["b"], st, dot_follows)
         if rt[0].startswith("-"):
@@ -140,7 +141,7 @@ def render_expr(e, st: Style, dot_follows=False):
     if k in ("mul", "div"):
         l = _wrap(render_expr(e["a"], st), L_MUL, st)
         rneed = L_POW
-        if k == "mul" and e["b"]["k"] == "mul" and st.chance(0.3):
+        if k == "mul" and e["b"]["k"] == "mul" and not st.faithful and st.chance(0.3):
             rneed = L_MUL
         # an integer literal divisor is written as a plain integer (x/3.0 would be read as x*0.333333333333333)
         rst = _PlainNums(st) if (k == "div" and not _has_var(e["b"])) else st
